@@ -12,7 +12,7 @@ EVID = os.path.join(VERIF, "evidence")
 KNOWN = os.path.join(VERIF, "known_findings.jsonl")
 HBIN = os.path.join(HARNESS, "target", "debug", "fvharness")
 
-ALL_FIXES = ["FixRecv", "FixFifo", "FixCancelDefault", "FixEmptyToken", "FixStackFull", "FixForceStart"]
+ALL_FIXES = ["FixRecv", "FixFifo", "FixCancelDefault", "FixEmptyToken", "FixStackFull", "FixForceStart", "FixReentrant"]
 
 
 class ToolError(Exception):
